@@ -20,6 +20,19 @@ from twisted.internet.task import Clock, LoopingCall
 from twisted.python.failure import Failure
 
 
+class LazyTimerLine(object):
+    """Placeholder for the observation `setTimer <kind> <delay>` of a timer whose kind is not known yet."""
+
+    def __init__(self, dc, delay):
+        self.dc, self.delay = dc, delay
+
+    def resolve(self, consumer):
+        for attr, kind in (("_retry_call", "retry"), ("_commit_call", "commit")):
+            if consumer is not None and getattr(consumer, attr, None) is self.dc:
+                self.dc.verif_kind = kind
+        return "setTimer %s %r" % (self.dc.verif_kind, self.delay)
+
+
 class StepClock(Clock):
     def __init__(self, log):
         Clock.__init__(self)
@@ -40,14 +53,20 @@ class StepClock(Clock):
         kind = self.kind_of(callable)
 
         def cancelled(dc):
-            self.log("cancelTimer %s" % kind)
+            self.log("cancelTimer %s" % dc.verif_kind)
             self.calls.remove(dc)
 
         dc = DelayedCall(self.seconds() + delay, callable, args, kw, cancelled, lambda c: None, self.seconds)
         dc.verif_kind = kind
         self.calls.append(dc)
         self._sortCalls()
-        self.log("setTimer %s %r" % (kind, float(delay)))
+        if kind.startswith("other:"):
+            # a callee the harness does not know by name: the timer is named by the attribute of the consumer that
+            # holds its handle (`_retry_call`, `_commit_call`), looked up as soon as the caller has stored it - see
+            # `consumer_run.Run.log`; a handle stored in neither keeps the name `other:<callee>`
+            self.log(LazyTimerLine(dc, float(delay)))
+        else:
+            self.log("setTimer %s %r" % (kind, float(delay)))
         return dc
 
     def move(self, dt):
